@@ -139,3 +139,74 @@ pub fn random_cuts(rng: &mut vmon::Rng, len: usize, k: usize) -> Vec<usize> {
 pub fn short_hex(b: &[u8]) -> String {
     if b.len() <= 48 { vmon::hex(b) } else { format!("{}..(+{} bytes)", vmon::hex(&b[..48]), b.len() - 48) }
 }
+
+/// PRNG bytes of PRNG length in lo..=hi
+pub fn rbytes(rng: &mut vmon::Rng, lo: usize, hi: usize) -> Vec<u8> {
+    let n = lo + rng.usize(hi - lo + 1);
+    rng.bytes(n)
+}
+
+pub enum Step<T> {
+    Done(T),
+    /// Pending and not woken: waits for something external
+    Stalled,
+    /// poll budget used up by self-waking Pendings
+    Budget,
+}
+
+/// Poll `f` until ready, stalled, or `max_polls` polls were spent.
+pub fn drive<F: std::future::Future + Unpin>(f: &mut F, max_polls: usize) -> Step<F::Output> {
+    let (flag, w) = flag_waker();
+    let mut cx = Context::from_waker(&w);
+    for _ in 0..max_polls {
+        flag.take();
+        if let Poll::Ready(v) = Pin::new(&mut *f).poll(&mut cx) {
+            return Step::Done(v);
+        }
+        if !flag.is_set() {
+            return Step::Stalled;
+        }
+    }
+    Step::Budget
+}
+
+/// Drive two futures that talk to each other until both are done or neither can move.
+/// `progress()` must change whenever bytes moved between them.
+pub fn drive_pair<A, B>(a: &mut A, b: &mut B, ra: &mut Option<A::Output>, rb: &mut Option<B::Output>, progress: impl Fn() -> u64, rounds: usize)
+where
+    A: std::future::Future + Unpin,
+    B: std::future::Future + Unpin,
+{
+    let mut last = u64::MAX;
+    for _ in 0..rounds {
+        let mut all_stalled = true;
+        if ra.is_none() {
+            match drive(a, 4096) {
+                Step::Done(v) => {
+                    *ra = Some(v);
+                    all_stalled = false;
+                }
+                Step::Budget => all_stalled = false,
+                Step::Stalled => {}
+            }
+        }
+        if rb.is_none() {
+            match drive(b, 4096) {
+                Step::Done(v) => {
+                    *rb = Some(v);
+                    all_stalled = false;
+                }
+                Step::Budget => all_stalled = false,
+                Step::Stalled => {}
+            }
+        }
+        if ra.is_some() && rb.is_some() {
+            return;
+        }
+        let p = progress();
+        if all_stalled && p == last {
+            return;
+        }
+        last = p;
+    }
+}
